@@ -250,6 +250,25 @@ func runC12(rc *RunCtx, variant string) *simkit.Violation {
 	if variant != "open" {
 		return nil // the directed scenarios only exist to reproduce the recorded findings
 	}
+	// (a') a commit that reports success is THE commit of the diamond: the terminal descriptor records "done" with its bundle
+	for _, c := range commits {
+		if c.client.Dead || !c.task.Done || c.task.Err != nil {
+			continue
+		}
+		o := d.VMet.Peek(model.GetArchivePathToFinalDiamond("r1", did))
+		var dd model.DiamondDescriptor
+		if o == nil || yaml.Unmarshal(o.Data, &dd) != nil {
+			return Viol(prop, "commit-success-not-recorded", "Commit", did, "%s reported success but the diamond has no (readable) terminal descriptor: it can be committed again", c.task.Name)
+		}
+		if dd.State != model.DiamondDone || c.diamond == nil || dd.BundleID != c.diamond.BundleID {
+			got := ""
+			if c.diamond != nil {
+				got = c.diamond.BundleID
+			}
+			return Viol(prop, "commit-success-not-recorded", "Commit", did, "%s reported success with bundle %q but the diamond's terminal descriptor says state %q, bundle %q", c.task.Name, got, dd.State, dd.BundleID)
+		}
+		w.Probe("successful-commit-is-recorded")
+	}
 	// (b)(c) once terminal: commits, new splits and re-runs of done splits are refused
 	late := w.Client("late")
 	if terminal() {
